@@ -50,7 +50,7 @@ ASSUMPTIONS = [
     'notes are generated without annobin/stapsdt owners, RELR sections are not displayed by the clone, core-file notes live in '
     'segments the clone does not print: files with those features are skipped for the option concerned',
 ]
-KINDS = {'corpus': (288, 1011, 0), 'system': (22, 64, 1), 'compiled': (32, 81, 1), 'descr': (64, 64, 2), 'dwdescr': (40, 40, 1), 'generated': (260, 2600, 4)}
+KINDS = {'corpus': (288, 1011, 0), 'system': (22, 64, 1), 'compiled': (32, 86, 1), 'descr': (64, 64, 2), 'dwdescr': (40, 40, 1), 'generated': (260, 2600, 4)}
 FLOOR = {'quick': 150, 'thorough': 600}
 CASE_TIMEOUT = 1200
 OPTIONS = ['-e', '-d', '-s', '-n', '-r', '-x.text', '-p.shstrtab', '-V', '--debug-dump=info', '--debug-dump=decodedline',
@@ -357,7 +357,15 @@ OTHER_CFG = [('g++', 'c.cpp', ['-gdwarf-%d' % v, o, '-fPIC', '-c'], 'g++-dwarf%d
      ('g++', 'big.cpp', ['-gdwarf-4', '-O1'], 'g++-big-exe-dwarf4'),
      # programs of other front ends, linked with their run-time libraries (the Rust one carries the debug info of std: ~470000 lines)
      ('rustc', 'main.rs', ['-g'], 'rustc-exe'), ('gfortran', 'fmain.f90', ['-g', '-O1'], 'gfortran-exe'),
-     ('clang++', ('mm.cpp', 'c.cpp'), ['-g', '-O1', '-gdwarf-4'], 'clang++-exe-dwarf4')]
+     ('clang++', ('mm.cpp', 'c.cpp'), ['-g', '-O1', '-gdwarf-4'], 'clang++-exe-dwarf4'),
+     # relocation sections kept in a linked file, large-model sections, RELR, and the dynamic tags of rarely used linker options
+     ('gcc', ('m.c', 'a.c', 'b.c'), ['-g', '-O1', '-Wl,--emit-relocs', '-Wl,--gc-sections'], 'gcc-exe-emit-relocs'),
+     ('gcc', 'med.c', ['-g', '-O1', '-mcmodel=medium', '-mlarge-data-threshold=1000', '-c'], 'gcc-medium-model.o'),
+     ('gcc', ('m.c', 'a.c', 'b.c'), ['-g', '-O1', '-Wl,-z,pack-relative-relocs'], 'gcc-exe-relr'),
+     ('gcc', ('a.c', 'b.c'), ['-g', '-O1', '-fPIC', '-shared', '-Wl,-Bsymbolic', '-Wl,-z,initfirst', '-Wl,-z,interpose', '-Wl,-z,origin', '-Wl,-z,global',
+                              '-Wl,-z,nodlopen', '-Wl,-z,nodump', '-Wl,--audit=libaudit.so', '-Wl,--depaudit=libdep.so', '-Wl,-f,libaux.so', '-Wl,-init=area',
+                              '-Wl,-fini=sum_list', '-Wl,-z,stack-size=0x200000', '-Wl,-z,now'], 'gcc-so-flags'),
+     ('gcc', 'a.c', ['-g', '-O1', '-fPIC', '-shared', '-Wl,-F,libfilter.so', '-Wl,--build-id=none', '-Wl,-z,noseparate-code', '-Wl,-z,lazy'], 'gcc-so-filter')]
 
 
 def run_compiled(idx, rng, sh):
@@ -404,6 +412,10 @@ def run_compiled(idx, rng, sh):
         for option in COMPILED_OPTS:
             if cfg[0] == 'clang' and ver == 5 and option == '--debug-dump=info':
                 sh.skip('clang DWARF 5 uses the index forms (strx/addrx/loclistx/rnglistx), which have no entry in the clone\'s attribute description map')
+                continue
+            why = system_skip(out, option)
+            if why:
+                sh.skip(why)
                 continue
             if option == '-A' and not (cfg[0] == 'clang' and cfg[1].startswith('arm')):
                 continue                # build attributes: the clone decodes those of ARM and RISC-V only
